@@ -15,10 +15,10 @@ class C18(Prop):
     quick_n = 40
     thorough_n = 2500
     shrink_key = None
-    rule = ("random feature / price tables on business days or calendar days (missing values, differing index ranges, "
+    rule = ("random feature / price tables on business days, calendar days or hourly session bars (missing values, differing index ranges, "
             "feature rows on dates absent from the price table), window 1..30, strides, transformers none / z-score / "
-            "yeo-johnson, clip values up to 5, spreads, the NYSE calendar (holidays inside the span), start / end "
-            "bounds, a rate series; the whole episode is stepped and every observation, quote, rate and timestep is "
+            "yeo-johnson, clip values up to 5, spreads, the NYSE calendar and, in a third of the cases, LSE / JPX / XHKG / EUREX / CME_Equity / 24-7 (holidays inside the span), start / end "
+            "bounds, a rate series, folds whose episodes start in the middle of the data; the whole episode is stepped and every observation, quote, rate and timestep is "
             "checked against the published tables. Non-trivial = window > 1 with a stride, or missing values in X, or "
             "a holiday inside the span, or X and Y indices differ; distinct = distinct cases")
     nontrivial_tags = {"stride", "missing", "holiday", "index-mismatch", "window>1"}
@@ -29,6 +29,23 @@ class C18(Prop):
     ]
 
     def gen(self, rng, tier):
+        c = self._gen0(rng, tier)
+        if rng.random() < 0.3:
+            # finer than daily: hourly session bars (10:00 .. 16:00) on the exchange's trading days
+            c["intraday"] = True
+            c["x_offset"] = 0
+            c["n"] = rng.randint(60, 160)
+            c["window"] = rng.choice([1, 2, 3, 5, 6, 10, 20])
+        if rng.random() < 0.35:
+            c["calendar"] = rng.choice(["LSE", "JPX", "XHKG", "EUREX", "24/7", "CME_Equity"])
+        if rng.random() < 0.45:
+            # folds: a second fold whose episodes start in the middle of the data (for session bars, mostly on the
+            # first bar of a day, right after the overnight gap), optionally with a configured episode length
+            c["fold_split"] = rng.random()
+            c["fold_day_start"] = rng.random() < 0.6
+        return c
+
+    def _gen0(self, rng, tier):
         return dict(seed=rng.randint(0, 10**9), n=rng.randint(40, 110), nx=rng.randint(1, 4), ny=rng.randint(1, 3),
                     window=rng.choice([1, 1, 2, 3, 5, 10, 30]), stride=rng.choice([None, None, 2, 3, 7]),
                     transformer=rng.choice(["z-score", "yeo-johnson", None]), clip=rng.choice([5.0, 2.0, 0.5, 3.0]),
@@ -46,10 +63,18 @@ class C18(Prop):
         r = ImplRun()
         rng = np.random.default_rng(case["seed"])
         n, w, stride = case["n"], case["window"], case["stride"]
+        calname = case.get("calendar", "NYSE")
+        if calname != "NYSE":
+            r.tags.add("other-calendar")
         if stride is not None and stride > w:
             stride = None
         first = f"2019-{case['start_month']:02d}-01"
         idx = pd.date_range(first, periods=n, freq="D") if case["calendar_days"] else pd.bdate_range(first, periods=n)
+        if case.get("intraday"):
+            hol_ = set(pd.Timestamp(h) for h in pandas_market_calendars.get_calendar(calname).holidays().holidays)
+            days_ = [d for d in pd.bdate_range(first, periods=n // 7 + 3) if d not in hol_]
+            idx = pd.DatetimeIndex([d + pd.Timedelta(hours=h) for d in days_ for h in range(10, 17)])[:n]
+            r.tags.add("intraday")
         xidx = idx
         if case["x_offset"]:
             xidx = (pd.date_range(idx[0] + pd.Timedelta(days=case["x_offset"]), periods=n, freq="D")
@@ -73,7 +98,7 @@ class C18(Prop):
             kw = dict(start=idx[n // 6], end=idx[-n // 8])
         if case.get("edge"):
             # the usable range starts / ends exactly on an exchange holiday that has a row in the price table
-            hol0 = pandas_market_calendars.get_calendar("NYSE").holidays().holidays
+            hol0 = pandas_market_calendars.get_calendar(calname).holidays().holidays
             inside = [pd.Timestamp(h) for h in hol0 if idx[0] <= pd.Timestamp(h) <= idx[-1] and pd.Timestamp(h) in idx]
             if inside:
                 if case["edge"] == "end-holiday":
@@ -87,10 +112,26 @@ class C18(Prop):
             warnings.simplefilter("ignore")
             try:
                 env = TradingEnvXY(X, Y, transformer=case["transformer"], window=w, stride=stride, clip=case["clip"],
-                                   spread=case["spread"], rate=rate, steps_delay=case["delay"], **kw)
+                                   spread=case["spread"], rate=rate, steps_delay=case["delay"], calendar=calname, **kw)
             except Exception as e:  # noqa  (e.g. not enough data for the window: outside the property)
                 r.skipped = f"construction refused: {type(e).__name__}"
                 return r
+        fold2 = None
+        if case.get("fold_split") is not None:
+            ts0 = sorted(env._transmitter.timesteps)
+            if len(ts0) >= 6:
+                a = min(len(ts0) - 3, max(2, int(case["fold_split"] * len(ts0))))
+                if case.get("intraday") and case.get("fold_day_start"):
+                    firsts = [i for i in range(2, len(ts0) - 2) if pd.Timestamp(ts0[i]).date() != pd.Timestamp(ts0[i - 1]).date()]
+                    if firsts:
+                        a = min(firsts, key=lambda i: abs(i - a))
+                folds = {"training-set": [ts0[0], ts0[a - 1]], "test-set": [ts0[a], ts0[-1]]}
+                with warnings.catch_warnings():
+                    warnings.simplefilter("ignore")
+                    env = TradingEnvXY(X, Y, transformer=case["transformer"], window=w, stride=stride, clip=case["clip"],
+                                       spread=case["spread"], rate=rate, steps_delay=case["delay"], folds=folds, calendar=calname, **kw)
+                fold2 = "test-set"
+                r.tags.add("mid-data-fold")
         if w > 1:
             r.tags.add("window>1")
         if stride:
@@ -116,7 +157,7 @@ class C18(Prop):
             r.op(line, None)
             r.prep_checks = getattr(r, "prep_checks", []) + [(len(r.lines) - 1, off, [F(float(v)) for v in pub.tolist()])]
         # ---- timesteps: price-table dates in the common valid range, not holidays, after the first `window`
-        cal = pandas_market_calendars.get_calendar("NYSE")
+        cal = pandas_market_calendars.get_calendar(calname)
         hol = set(pd.Timestamp(h) for h in cal.holidays().holidays)
         lo = max(EX.first_valid_index(), EY.first_valid_index())
         hi = min(EX.last_valid_index(), EY.last_valid_index())
@@ -135,12 +176,18 @@ class C18(Prop):
         # ---- episode: observations, quotes, rate
         r.op(f"window {w} {'none' if not stride else stride}")
         shape = (math.ceil(w / stride) if stride else w, EX.shape[1])
-        with warnings.catch_warnings():
+        k = 0
+        for fold_name in ([None] if fold2 is None else [None, fold2, None]):
+          with warnings.catch_warnings():
             warnings.simplefilter("ignore")
-            obs = env.reset()
-            k = 0
+            obs = env.reset() if fold_name is None else env.reset(fold_name)
             done = False
             rate_c = env._broker_fees.interest_rate
+            if fold_name is not None:
+                t0 = pd.Timestamp(env.now())
+                if t0 != pd.Timestamp(folds[fold_name][0]):
+                    r.fail("fold-start", fold=fold_name, now=str(t0), expected=str(folds[fold_name][0]),
+                           clause="steps occur only on dates present in the price table ... and folds")
             while True:
                 t = pd.Timestamp(env.now())
                 rows = EX.loc[:t].iloc[-w:]
